@@ -132,7 +132,7 @@ theorem Own.realloc_some {o L : List Nat} {h : Heap} {i j : Nat} (hO : Own (i ::
 
 /-! ## server: the lg_srcv owns itself, the body under reassembly and the token of an early final block -/
 
-def ownedS (lg : ASrcv) : List Nat := (ser lg.lastTok).toList ++ ((ser lg.body).toList ++ [lg.id])
+def ownedS (lg : ASrcv) : List Nat := lg.uriPath.toList ++ ((ser lg.lastTok).toList ++ ((ser lg.body).toList ++ [lg.id]))
 
 def ownedSt : Option ASrcv → List Nat
   | none => []
@@ -142,9 +142,12 @@ theorem perm_swap (a b c : List Nat) : (a ++ (b ++ c)).Perm (b ++ (a ++ c)) := b
   rw [← List.append_assoc, ← List.append_assoc]
   exact List.Perm.append_right c List.perm_append_comm
 
+theorem perm_pull (x t b z : List Nat) : (x ++ (t ++ (b ++ z))).Perm (b ++ (x ++ (t ++ z))) :=
+  (List.Perm.append_left x (perm_swap t b z)).trans (perm_swap x b _)
+
 theorem freeSrcv_own {lg : ASrcv} {L : List Nat} {h : Heap} (hO : Own (ownedS lg) L h) : Own [] L (freeSrcv lg h) := by
   unfold freeSrcv
-  exact Own.free_head (Own.freeOpt_head (Own.freeOpt_head hO))
+  exact Own.free_head (Own.freeOpt_head (Own.freeOpt_head (Own.freeOpt_head hO)))
 
 theorem sepResponse_own {o L : List Nat} {h : Heap} (hO : Own o L h) : Own o L (sepResponse h) := by
   unfold sepResponse
@@ -211,16 +214,19 @@ theorem srcvDecide_own {lg : ASrcv} {m chunk tokLen : Nat} {L : List Nat} {h : H
     · exact hO
     · exact freeSrcv_own (sepResponse_own hO)
   · split
-    · have h1 : Own ((ser lg.body).toList ++ [lg.id]) L (freeOpt (ser lg.lastTok) h) := Own.freeOpt_head hO
+    · have h1 : Own (lg.uriPath.toList ++ ((ser lg.body).toList ++ [lg.id])) L (freeOpt (ser lg.lastTok) h) :=
+        Own.freeOpt_head (hO.perm (perm_swap _ _ _))
       rcases hA : (freeOpt (ser lg.lastTok) h).alloc with ⟨_ | t, h2⟩
       · have := h1.alloc_none (by rw [hA]); rw [hA] at this
         exact freeSrcv_own (lg := { lg with noMoreSeen := true, lastTok := none }) (by simpa [ownedS, ser] using this)
       · have := h1.alloc_some (i := t) (by rw [hA]); rw [hA] at this
-        simpa [ownedSt, ownedS, ser] using this
+        have h3 : Own (lg.uriPath.toList ++ ([t] ++ ((ser lg.body).toList ++ [lg.id]))) L h2 :=
+          Own.perm (o := [t] ++ (lg.uriPath.toList ++ ((ser lg.body).toList ++ [lg.id]))) (by simpa using this) (perm_swap _ _ _)
+        simpa [ownedSt, ownedS, ser] using h3
     · exact freeSrcv_own hO
 
-theorem srcvLocate_own {st : Option ASrcv} {szx : Nat} {size1 : Option Nat} {L : List Nat} {h : Heap}
-    (hO : Own (ownedSt st) L h) : Own (ownedSt (srcvLocate st szx size1 h).1) L (srcvLocate st szx size1 h).2 := by
+theorem srcvLocate_own {st : Option ASrcv} {szx : Nat} {size1 : Option Nat} {unk : Bool} {L : List Nat} {h : Heap}
+    (hO : Own (ownedSt st) L h) : Own (ownedSt (srcvLocate st szx size1 unk h).1) L (srcvLocate st szx size1 unk h).2 := by
   unfold srcvLocate
   cases st with
   | some lg => exact hO
@@ -228,15 +234,25 @@ theorem srcvLocate_own {st : Option ASrcv} {szx : Nat} {size1 : Option Nat} {L :
     simp only
     rcases hA : h.alloc with ⟨_ | i, h1⟩
     · have := hO.alloc_none (by rw [hA]); rw [hA] at this; simpa [ownedSt] using this
-    · have := hO.alloc_some (i := i) (by rw [hA]); rw [hA] at this
-      simpa [ownedSt, ownedS, ser] using this
+    · have h1O := hO.alloc_some (i := i) (by rw [hA]); rw [hA] at h1O
+      simp only
+      cases unk with
+      | false => simpa [ownedSt, ownedS, ser] using h1O
+      | true =>
+        simp only [if_true]
+        rcases hB : h1.alloc with ⟨_ | p, h2⟩
+        · have := h1O.alloc_none (by rw [hB]); rw [hB] at this
+          simpa [ownedSt] using Own.free_head this
+        · have := h1O.alloc_some (i := p) (by rw [hB]); rw [hB] at this
+          simpa [ownedSt, ownedS, ser] using this
 
 theorem srcvUpdate_own {lg : ASrcv} {rec' : Block.Ranges} {len offset m chunk tokLen : Nat} {L : List Nat} {h : Heap}
     (hO : Own (ownedS lg) L h) :
     Own (ownedSt (srcvUpdate lg rec' len offset m chunk tokLen h).2.1) L (srcvUpdate lg rec' len offset m chunk tokLen h).2.2 := by
   unfold srcvUpdate
   simp only
-  have hb : Own ((ser lg.body).toList ++ ((ser lg.lastTok).toList ++ [lg.id])) L h := hO.perm (perm_swap _ _ _)
+  have hb : Own ((ser lg.body).toList ++ (lg.uriPath.toList ++ ((ser lg.lastTok).toList ++ [lg.id]))) L h :=
+    hO.perm (perm_pull _ _ _ _).symm
   have hB := buildBody_own (len := len) (off := offset)
     (tot := if lg.totalLen < offset + len then offset + len else lg.totalLen) hb
   rcases hR : buildBody lg.body len offset (if lg.totalLen < offset + len then offset + len else lg.totalLen) h with ⟨_ | b, h2⟩
@@ -244,7 +260,8 @@ theorem srcvUpdate_own {lg : ASrcv} {rec' : Block.Ranges} {len offset m chunk to
     exact freeSrcv_own (lg := { lg with recv := rec', totalLen := _, body := none }) (by simpa [ownedS, ser] using hB)
   · rw [hR] at hB
     exact srcvDecide_own (lg := { lg with recv := rec', totalLen := _, body := some b })
-      ((show Own ((ser (some b)).toList ++ ((ser lg.lastTok).toList ++ [lg.id])) L h2 from hB).perm (perm_swap _ _ _))
+      ((show Own ((ser (some b)).toList ++ (lg.uriPath.toList ++ ((ser lg.lastTok).toList ++ [lg.id]))) L h2 from hB).perm
+        (perm_pull _ _ _ _))
 
 theorem srcvStore_own {cap : Nat} {lg : ASrcv} {num m len chunk tokLen : Nat} {L : List Nat} {h : Heap}
     (hO : Own (ownedS lg) L h) :
@@ -259,17 +276,18 @@ theorem srcvStore_own {cap : Nat} {lg : ASrcv} {num m len chunk tokLen : Nat} {L
       · exact srcvUpdate_own hO
       · exact srcvDecide_own (lg := { lg with recv := _ }) hO
 
-theorem srcvStep_own {cap : Nat} {st : Option ASrcv} {num m szx plen tokLen : Nat} {size1 : Option Nat} {L : List Nat} {h : Heap}
-    (hO : Own (ownedSt st) L h) :
-    Own (ownedSt (srcvStep cap st num m szx plen tokLen size1 h).2.1) L (srcvStep cap st num m szx plen tokLen size1 h).2.2 := by
+theorem srcvStep_own {cap : Nat} {st : Option ASrcv} {num m szx plen tokLen : Nat} {size1 : Option Nat} {unk : Bool}
+    {L : List Nat} {h : Heap} (hO : Own (ownedSt st) L h) :
+    Own (ownedSt (srcvStep cap st num m szx plen tokLen size1 unk h).2.1) L
+      (srcvStep cap st num m szx plen tokLen size1 unk h).2.2 := by
   unfold srcvStep
   simp only
   split
   · exact hO
   split
   · exact hO
-  have hL := srcvLocate_own (szx := szx) (size1 := size1) hO
-  rcases hl : srcvLocate st szx size1 h with ⟨_ | lg, h1⟩
+  have hL := srcvLocate_own (szx := szx) (size1 := size1) (unk := unk) hO
+  rcases hl : srcvLocate st szx size1 unk h with ⟨_ | lg, h1⟩
   · rw [hl] at hL; simpa [ownedSt] using hL
   · rw [hl] at hL
     simp only
@@ -511,9 +529,6 @@ theorem freeEntries_own : ∀ (tab : List (Option (Nat × Nat))) (o L : List Nat
       simpa [fm_cons, List.append_assoc] using hO
     obtain ⟨h', e1, e2⟩ := ih o L _ h1
     exact ⟨h', by simpa [freeEntries] using e1, e2⟩
-
-theorem perm_pull (x t b z : List Nat) : (x ++ (t ++ (b ++ z))).Perm (b ++ (x ++ (t ++ z))) :=
-  (List.Perm.append_left x (perm_swap t b z)).trans (perm_swap x b _)
 
 theorem deleteCrcv_own {c : Crcv} {L : List Nat} {h : Heap} (hO : Own (ownedC c) L h) (hl : c.tab.length = c.cnt) :
     ∃ h', deleteCrcv c h = some h' ∧ Own [] L h' := by
